@@ -249,15 +249,16 @@ func Deviations() []Dev {
 		t.PipeBefore, t.PipeAfter = 2, 2
 	})
 	hc := map[string]Comment{
-		"text":                {Text: " some text"},
-		"tag":                 {Text: " tag:v", Tags: []Tag{{"tag", "v"}}},
-		"two-tags":            {Text: " a:1, b:", Tags: []Tag{{"a", "1"}, {"b", ""}}},
-		"nospace":             {Text: "nospace"},
-		"nonascii-before-tag": {Text: " é t:v", Tags: []Tag{{"t", "v"}}},
-		"date-tag":            {Text: " date:2001-01-09", Tags: []Tag{{"date", "2001-01-09"}}},
-		"tag-words":           {Text: " Tag-1:two words, t_2:é", Tags: []Tag{{"Tag-1", "two words"}, {"t_2", "é"}}},
-		"nonbmp-tags":         {Text: " trip:🍕 pizza, k2:v", Tags: []Tag{{"trip", "🍕 pizza"}, {"k2", "v"}}},
-		"nonbmp-before-tags":  {Text: " 🎉 fun, trip:paris, k2:v", Tags: []Tag{{"trip", "paris"}, {"k2", "v"}}},
+		"text":                  {Text: " some text"},
+		"tag":                   {Text: " tag:v", Tags: []Tag{{"tag", "v"}}},
+		"two-tags":              {Text: " a:1, b:", Tags: []Tag{{"a", "1"}, {"b", ""}}},
+		"nospace":               {Text: "nospace"},
+		"nonascii-before-tag":   {Text: " é t:v", Tags: []Tag{{"t", "v"}}},
+		"date-tag":              {Text: " date:2001-01-09", Tags: []Tag{{"date", "2001-01-09"}}},
+		"tag-words":             {Text: " Tag-1:two words, t_2:é", Tags: []Tag{{"Tag-1", "two words"}, {"t_2", "é"}}},
+		"nonbmp-tags":           {Text: " trip:🍕 pizza, k2:v", Tags: []Tag{{"trip", "🍕 pizza"}, {"k2", "v"}}},
+		"nonbmp-before-tags":    {Text: " 🎉 fun, trip:paris, k2:v", Tags: []Tag{{"trip", "paris"}, {"k2", "v"}}},
+		"tag-name-inside-value": {Text: " note:see ref:12, ref:12", Tags: []Tag{{"note", "see ref:12"}, {"ref", "12"}}},
 	}
 	for _, k := range sortedKeys(hc) {
 		c := hc[k]
@@ -427,15 +428,16 @@ func Deviations() []Dev {
 		})
 	}
 	pc := map[string]Comment{
-		"text":                {Text: " some text"},
-		"nospace":             {Text: "text"},
-		"two-blanks":          {Text: "  two blanks"},
-		"tag":                 {Text: " tag:v", Tags: []Tag{{"tag", "v"}}},
-		"two-tags":            {Text: " a:1, b:2", Tags: []Tag{{"a", "1"}, {"b", "2"}}},
-		"nonascii-before-tag": {Text: " é t:v", Tags: []Tag{{"t", "v"}}},
-		"three-tags":          {Text: " x:1, y:, z:two words", Tags: []Tag{{"x", "1"}, {"y", ""}, {"z", "two words"}}},
-		"nonbmp-tags":         {Text: " trip:🍕 pizza, k2:v", Tags: []Tag{{"trip", "🍕 pizza"}, {"k2", "v"}}},
-		"nonbmp-before-tags":  {Text: " 🎉 fun, trip:paris, k2:v", Tags: []Tag{{"trip", "paris"}, {"k2", "v"}}},
+		"text":                  {Text: " some text"},
+		"nospace":               {Text: "text"},
+		"two-blanks":            {Text: "  two blanks"},
+		"tag":                   {Text: " tag:v", Tags: []Tag{{"tag", "v"}}},
+		"two-tags":              {Text: " a:1, b:2", Tags: []Tag{{"a", "1"}, {"b", "2"}}},
+		"nonascii-before-tag":   {Text: " é t:v", Tags: []Tag{{"t", "v"}}},
+		"three-tags":            {Text: " x:1, y:, z:two words", Tags: []Tag{{"x", "1"}, {"y", ""}, {"z", "two words"}}},
+		"nonbmp-tags":           {Text: " trip:🍕 pizza, k2:v", Tags: []Tag{{"trip", "🍕 pizza"}, {"k2", "v"}}},
+		"nonbmp-before-tags":    {Text: " 🎉 fun, trip:paris, k2:v", Tags: []Tag{{"trip", "paris"}, {"k2", "v"}}},
+		"tag-name-inside-value": {Text: " note:see ref:12, ref:12", Tags: []Tag{{"note", "see ref:12"}, {"ref", "12"}}},
 	}
 	for _, k := range sortedKeys(pc) {
 		c := pc[k]
